@@ -337,6 +337,15 @@ fn create_tcp_listener(
     config: &Config,
     priv_dropper: PrivilegeDropper,
 ) -> anyhow::Result<TcpListener> {
+    #[cfg(aquatic_verif)]
+    {
+        let listener = TcpListener::sim_bind(config.network.address, config.network.only_ipv6)
+            .with_context(|| format!("socket: bind to {}", config.network.address))?;
+
+        priv_dropper.after_socket_creation()?;
+
+        return Ok(listener);
+    }
     let domain = if config.network.address.is_ipv4() {
         socket2::Domain::IPV4
     } else {
